@@ -55,6 +55,7 @@ func runC04(c *core.Ctx) *core.Outcome {
 	cfg.CacheSize = 0
 	cfg.FinishAlways = true
 	cfg.SetSession = t.Chance(1, 2)
+	cfg.First = t.Chance(1, 4) // a pre-VM function is no move: the position must not notice it
 	if cfg.OutputSize > 0 && cfg.OutputSize < 40 {
 		cfg.OutputSize = 60 // multi-page nodes, not refused renders, are the point here
 	}
